@@ -158,7 +158,27 @@ def rule_dependent_reference(repo: Repo, rep: Report, rule: str) -> int:
                    f"{q} hands out a subscription to the wrapped sequence without first taking a dependent reference on the RefCountDisposable "
                    f"(skipped under a condition, or taken after the subscribe): the source is released while this subscriber is still live "
                    f"(outer subscription disposed earlier / during the subscribe, another dependent released)")
-    return n_inst
+    # GroupedObservable: the counting wrapper is what subscribers get exactly when a RefCountDisposable was given
+    gi = repo.fn("reactivex/observable/groupedobservable.py", "GroupedObservable.__init__")
+    md = gi.params[3]
+    sel = [n_.value for n_ in gi.direct_nodes() if isinstance(n_, (ast.Assign, ast.AnnAssign)) and n_.value is not None and isinstance(n_.value, ast.IfExp)
+           and any(isinstance(c_, ast.Call) and call_name(c_) == "Observable" for c_ in ast.walk(n_.value))]
+    okg = False
+    if len(sel) == 1:
+        v = sel[0]
+        wrapper_in_body = any(isinstance(c_, ast.Call) and call_name(c_) == "Observable" for c_ in ast.walk(v.body))
+        t = v.test
+        neg = isinstance(t, ast.UnaryOp) and isinstance(t.op, ast.Not)
+        core = t.operand if neg else t
+        given = (u(core) == md) or (isinstance(core, ast.Compare) and u(core.left) == md and isinstance(core.ops[0], ast.IsNot)) 
+        absent = isinstance(core, ast.Compare) and u(core.left) == md and isinstance(core.ops[0], ast.Is)
+        truth_means_given = (given and not neg) or (absent and neg)
+        truth_means_absent = (given and neg) or (absent and not neg)
+        okg = (wrapper_in_body and truth_means_given) or ((not wrapper_in_body) and truth_means_absent)
+    rep.ob(rule, gi, f"GroupedObservable: the counting wrapper is used iff `{md}` was given (`{short(sel[0], 70) if sel else '?'}`)", okg,
+           "GroupedObservable hands out the raw subject although a RefCountDisposable was given (the selection between the subject and the counting "
+           "wrapper is inverted): group subscriptions take no dependent, so disposing the outer subscription releases the source under live groups")
+    return n_inst + 1
 
 
 def rule_refcount_outputs(repo: Repo, rep: Report) -> None:
